@@ -33,6 +33,17 @@ THEOREMS = [
     "Cv.C04e.encoded_findPathTo_single_word",
     "Cv.C04e.encoded_findPathFrom_single_word",
     "Cv.C04e.encoded1d_findPathTo_eq",
+    "Cv.C04m.mat_pathHypOn",
+    "Cv.C04m.mat_pathHyp_restrict",
+    "Cv.C04m.mat_ball",
+    "Cv.C04m.mat_ball_math",
+    "Cv.C04m.mat_findPathTo_spec",
+    "Cv.C04m.mat_findPathFrom_spec",
+    "Cv.C04m.mat_revertPath_spec",
+    "Cv.C04m.matInvOf_iff_apply",
+    "Cv.C04m.mat_isInverse_iff",
+    "Cv.C04m.mat_inv_sound",
+    "Cv.C04m.mat_inverseMap_spec",
 ]
 
 
@@ -182,7 +193,7 @@ def main():
         body = json.load(open(os.path.join(VERIF, ck.replay) if not os.path.isabs(ck.replay) else ck.replay))
         ck.guard(run_case, ck, body["case"])
         ck.finish(rule="replay of one recorded case")
-    ck.lean_obligations(["CvProps.C04", "CvProps.C04e"], THEOREMS)
+    ck.lean_obligations(["CvProps.C04", "CvProps.C04e", "CvProps.C04m"], THEOREMS)
     for case in json.load(open(os.path.join(VERIF, "harness", "corpus", "C04.json"))):
         ck.guard(run_case, ck, case)
         ck.count("corpus")
